@@ -61,14 +61,14 @@ def conc(case):
     exp_a = common.ref_ragged(common.rows_of(case["data"], case["lens"]), "int64") if (p["probe"] in programs.WRITE_PROBES and "ellipsis" not in p["steps"][-1:]) else dict(k="any")
     if od["k"] == "raise" and of["k"] == "raise":
         of = common.refused()
-    return dict(k="tuple", items=[od, oa]), dict(k="tuple", items=[of, exp_a])
+    return dict(k="tuple", items=[od, oa]), dict(k="tuple", items=[of, exp_a]), {"float_eq": True}
 
 
 D1 = ["rowslice_a", "rowslice_b", "rowrev", "rowstep2", "rowlist", "mask", "colslice_a", "colslice_b", "colrev", "colstep2", "colstepm2",
       "addone", "concat", "sort", "cumsum", "diff", "where", "ellipsis"]
 PROBES_Q = ["read", "rowint", "elem", "rowslice", "colslice", "colrev", "ufunc", "rowsum", "set_row", "set_col"]
 # every other public operation, applied to the plainest lazy selections (is a pending view materialised before its geometry is used?)
-PROBES_API = ["colint", "rowcolint", "maskidx", "colvals", "colsum", "colcounts", "padded", "padded_left", "unique", "cumsum", "concat", "where", "rslice", "any", "max", "nonzero", "iter", "tolist", "shape"]
+PROBES_API = ["colint", "rowcolint", "maskidx", "colvals", "colsum", "colcounts", "padded", "padded_left", "unique", "cumsum", "concat", "where", "rslice", "any", "max", "nonzero", "iter", "tolist", "shape", "fcol"]
 API_STEPS = ["rowslice_a", "rowrev", "rowlist", "mask", "colslice_a", "colrev", "colstep2"]
 VIEW_STEPS = ["rowslice_a", "rowrev", "rowstep2", "rowlist", "mask", "colslice_a", "colslice_b", "colrev", "colstep2", "colstepm2"]
 
